@@ -216,9 +216,10 @@ class Ctx:
         # many short attempts with different seeds first: easy queries are decided in well under a second by *some*
         # configuration, while a single unlucky (back end, seed) pair can burn its whole budget
         # (observed: the same query is decided in 4 s by one seed and not within 90 s by another, so the default seed
-        # gets a medium budget before other seeds get a long one)
-        plan = [("old", 2, 0), ("new", 2, 0), ("old", 2, 7), ("new", 2, 11), ("new", 8, 0), ("old", 8, 0), ("old", 6, 13), ("new", 6, 17),
-                ("new", 45, 0), ("old", 45, 0), ("new", 20, 3), ("old", 20, 5), ("new", 90, 23), ("old", 90, 29)]
+        # gets a medium budget before other seeds get a long one; giving it that budget EARLIER made every obligation with
+        # many 10-20 s queries several times slower and was reverted)
+        plan = [("old", 2, 0), ("new", 2, 0), ("old", 2, 7), ("new", 2, 11), ("old", 6, 13), ("new", 6, 17),
+                ("new", 20, 3), ("old", 20, 5), ("new", 40, 0), ("new", 90, 23), ("old", 90, 29)]
         if T > 90:
             plan += [("new", T, 0), ("old", T, 0)]
         if budget:
